@@ -20,9 +20,10 @@
    accepts is the canonical encoding of a well-formed program with one instruction per statement
    (so the disassembler's decoder reads exactly those instructions back, even strictly),
    findBranchSizes reaches its fixpoint within the fuel (no OutOfFuel), every varint branch
-   fills its placeholder exactly.  The unrestricted text-level round trip is refuted (finding
-   c33_deadcode_label_lost).  That the decoded branch targets are the labelled instructions,
-   the salt, and the text layer are tied only by the correspondence run. *)
+   fills its placeholder exactly and every written offset decodes to the start of the labelled
+   instruction.  The unrestricted text-level round trip is refuted (finding
+   c33_deadcode_label_lost).  The composition "re-assembling the disassembly gives the same
+   bytes", the salt, and the text layer are tied only by the correspondence run. *)
 From Coq Require Import NArith ZArith List Bool String.
 Import ListNotations.
 From Verif.lib Require Import Term.
@@ -148,6 +149,17 @@ Theorem C33_branch_sizes_exact : forall labs back_ver v ps fuel vss bytes,
   exact_sizes labs (positions 0 ps vss) 0 ps vss.
 Proof. exact branch_sizes_exact. Qed.
 Print Assumptions C33_branch_sizes_exact.
+
+(* label resolution is correct at that layout: the bytes of the i-th statement have exactly the
+   size the layout assumed, and every offset written for a label reference makes the
+   disassembler's target formula (tgt2: end of instruction + offset; tgtv: start + offset when
+   negative, end + offset otherwise) land on the start of the labelled instruction *)
+Theorem C33_branch_targets_correct : forall labs back_ver v ps fuel vss bytes,
+  find_sizes labs fuel ps (map (fun _ => 3%nat) ps) = Some vss ->
+  resolve_all back_ver v labs (positions 0 ps vss) (last (positions 0 ps vss) 0%nat) 0 ps vss = Some bytes ->
+  targets_ok labs (positions 0 ps vss) 0 ps vss bytes.
+Proof. exact branch_targets_correct. Qed.
+Print Assumptions C33_branch_targets_correct.
 
 (* anti-vacuity *)
 Example C33_nonvacuous_v13 : c_wf_prog 13 demo_prog13 = true.
